@@ -558,7 +558,7 @@ func extPoolPut(e *Exec, fr *frame, pos token.Pos, fn *ssa.Function, args []Valu
 	}
 	for _, it := range bag.items {
 		if e.equal(x.t, it, x).IsTrue() {
-			e.assertProp(e.ts.False, "pool: object put twice (double release)", e.posStr(pos))
+			e.softViolation("pool: object put twice (double release)", e.posStr(pos))
 		}
 	}
 	bag.items = append(bag.items, x)
